@@ -492,8 +492,13 @@ def monitor_sequence(ctx, variant_name: str, keys: list[str], res: dict) -> None
         allowed = sym.name is not None and sym.valid and before in RFC_TABLE[sym.name]
         either = (sym.name, before) in RFC_EITHER
         if v['exc'] is not None and v['exc'] not in ('CancelledError',):
-            # an internal error ended the connection: C06's business, but the
-            # state must still be "ended"
+            # an internal error ended the connection.  For a command the state
+            # allows that is C06's business; one the state forbids was not
+            # refused but executed.
+            if sym.valid and sym.name is not None and not allowed and not either:
+                ctx.failure('gate', f'{sym.name} is not allowed in state {before} but was executed '
+                            f'(it died with {v["exc"]})', rp,
+                            {'kind': 'accepted_out_of_state', 'command': sym.name, 'state': before})
             sh.state = 'logout'
             continue
         # ---- gate: acceptance depends only on the state reached so far
